@@ -313,3 +313,10 @@ func MergeDistinct(files []string) (int64, error) {
 	}
 	return int64(len(set)), nil
 }
+
+// Evaluations returns the number of evaluations counted so far.
+func (c *Ctx) Evaluations() int64 {
+	c.mu.Lock()
+	defer c.mu.Unlock()
+	return c.res.Evaluations
+}
